@@ -560,6 +560,8 @@ def analyse(case, out):
 
 class Check(DiffCheck):
     id = 'C06'
+    # lockset engine (lib/lockset.py): rwlock.state only changes under its mutex; cvar enqueue with the mutex still held
+    lockset_rules = {10, 11, 12, 13, 14, 15, 23}
     needs_libphoton = True
     coq_dirs = ['Base', 'C04', 'Sched', 'E3', 'C06']
     coq_targets = ['C06/C06_Proofs.vo']
